@@ -1,6 +1,9 @@
 """C20: in10nmem constants and the shape of the code the interleaving model relies on."""
 
 
+import re
+
+
 def collect(h):
     items = []
     rel = "pkg/in10nmem/consts.go"
@@ -10,10 +13,42 @@ def collect(h):
     items.append(("in10n_cchan_cap", "N", str(h.go_int(h.find(rel, r"cchan:\s*make\(chan struct\{\},\s*([0-9_]+)\)", "cchan capacity").group(1))), rel))
     # the notifier's send to a channel token must be non-blocking (select with default)
     body = h.func_body(rel, r"^func notifier\(", "notifier")
-    import re
     if not re.search(r"select\s*\{\s*case ch\.cchan <- struct\{\}\{\}:\s*default:", body):
         raise h.Missing(f"{rel}: notifier no longer sends tokens with a non-blocking select/default")
     items.append(("in10n_token_send_nonblocking", "bool", "true", rel))
+    # where Subscribe / Unsubscribe write prj.toSubscribe: inside the broker critical section (the
+    # closure `err = func() error { nb.Lock() ... }()`) or after it
+    src = h.src(rel)
+
+    def ftext(fn):
+        # text of a method up to the next top-level func (brace matching is defeated by a `{` in a comment)
+        m = re.search(r"^func \(nb \*n10nBroker\) %s\(" % fn, src, re.M)
+        if not m:
+            raise h.Missing(f"{rel}: cannot locate {fn}")
+        n = re.search(r"^func ", src[m.end():], re.M)
+        return src[m.end(): m.end() + n.start()] if n else src[m.end():]
+
+    def early(fn, rhs):
+        b = ftext(fn)
+        m = re.search(r"prj\.toSubscribe\[channelID\]\s*=\s*%s\b" % rhs, b)
+        c = b.find("}()")
+        if not m or c < 0 or "nb.Lock()" not in b[:c]:
+            raise h.Missing(f"{rel}: cannot locate the toSubscribe write / broker closure of {fn}")
+        return m.start() < c
+    es, eu = early("Subscribe", "channel"), early("Unsubscribe", "nil")
+    if es != eu:
+        raise h.Missing(f"{rel}: Subscribe and Unsubscribe write toSubscribe in different places (model has one flag)")
+    items.append(("in10n_mark_under_broker_lock", "bool", "true" if es else "false", rel))
+    # NewChannel: is ChannelsPerSubject applied to a subject without a metric record?
+    nc = ftext("NewChannel")
+    chk = r"if metric\.numChannelsPerSubject >= nb\.quotas\.ChannelsPerSubject \{"
+    if re.search(r"if metric != nil \{\s*" + chk, nc):
+        first = False
+    elif re.search(r"if metric == nil \{[^}]*\}\s*" + chk, nc):
+        first = True
+    else:
+        raise h.Missing(f"{rel}: cannot recognise the ChannelsPerSubject check of NewChannel")
+    items.append(("in10n_first_channel_checked", "bool", "true" if first else "false", rel))
     rel = "pkg/in10nmem/provide.go"
     h.find(rel, r"events:\s*make\(chan event,\s*eventsChannelSize\)", "events channel made with eventsChannelSize")
     return items
